@@ -2571,6 +2571,52 @@ class Workflow(Trellis):
             return file.get_state() in _relevant_states(during_build)
         return self.matches_any_glob(path)
 
+    def change_is_remembered(self, path: str, *, during_build: bool = False) -> bool:
+        """Return whether a file system change to `path` matters for a detached node.
+
+        A detached file node keeps its state and hash, and a detached step its recorded glob matches.
+        Both return to the workflow as they are when they are declared again unchanged,
+        so the watcher keeps them up to date, without reporting such changes:
+        they do not affect the workflow as it is now.
+        """
+        sql = (
+            "SELECT file.state FROM node JOIN file ON node.i = file.node "
+            "WHERE kind = 'file' AND label = ? AND detached"
+        )
+        row = self.db.execute(sql, (path,)).fetchone()
+        if row is not None:
+            state = FileState(row[0])
+            if state != FileState.UNDECLARED and state in _relevant_states(during_build):
+                return True
+        sql = "SELECT nglob.regex FROM nglob JOIN node ON node.i = nglob.node WHERE node.detached"
+        return any(re.compile(regex).fullmatch(path) for (regex,) in self.db.execute(sql))
+
+    def remembered_paths_under(
+        self, directory: str, *, during_build: bool = False
+    ) -> Iterator[str]:
+        """Iterate over the paths under `directory` whose disappearance matters for a detached node.
+
+        The counterpart of `relevant_paths_under` for `change_is_remembered`.
+        """
+        if not directory.endswith(os.sep):
+            directory += os.sep
+        relevant = _relevant_states(during_build) - {FileState.UNDECLARED}
+        states = ", ".join(str(state.value) for state in sorted(relevant))
+        seen = set()
+        clause, pattern = prefix_clause("node.label", directory)
+        sql = (
+            "SELECT label FROM node JOIN file ON node.i = file.node "
+            f"WHERE state IN ({states}) AND {clause} AND detached"
+        )
+        for (path,) in self.db.execute(sql, (pattern,)):
+            seen.add(path)
+            yield path
+        for _nglob_i, ng, _step in self.nglob_registrations(detached=True):
+            for path in ng.files():
+                if path.startswith(directory) and path not in seen:
+                    seen.add(path)
+                    yield path
+
     def relevant_paths_under(self, directory: str, *, during_build: bool = False) -> Iterator[str]:
         """Iterate over all paths under `directory` whose disappearance is relevant.
 
